@@ -11,6 +11,7 @@ package main
 import (
 	"fmt"
 	"math"
+	"os"
 	"sort"
 	"strings"
 
@@ -18,13 +19,13 @@ import (
 )
 
 type ovDecl struct {
-	name   string
-	ty     *wty
-	id     int     // -1 = no @id
-	init   *wexpr  // nil = no default
-	how    string  // absent | id | name
-	val    float64 // supplied value
-	knob   string
+	name string
+	ty   *wty
+	id   int     // -1 = no @id
+	init *wexpr  // nil = no default
+	how  string  // absent | id | name
+	val  float64 // supplied value
+	knob string
 }
 
 // ovExpr: initialiser expression of type t over literals, named constants and earlier overrides.
@@ -265,20 +266,71 @@ func cmdC14(c *ctx) {
 			body = append(body, st...)
 			if o.ty.isInt() {
 				// override used inside run-time arithmetic (const-folded after resolution)
-				bop := c.pick("+", "-")
+				bop := c.pick("+", "-", "/")
 				if knob == "bigval" {
 					bop = c.pick("+", "*", "-", "*")
 				}
 				e := &wexpr{k: "bin", ty: o.ty, op: bop, args: []*wexpr{v, {k: "bin", ty: o.ty, op: "+", args: []*wexpr{v, lit32(o.ty, uint32(c.rng.Intn(7)))}}}}
+				if bop == "/" {
+					// truncating division by a small positive constant (negative dividends included)
+					e = &wexpr{k: "bin", ty: o.ty, op: "/", args: []*wexpr{v, lit32(o.ty, uint32(2+c.rng.Intn(8)))}}
+				}
 				st := encStores(e, o.ty)
 				st[0].lhs.args[1].bits = uint32(slot)
 				slot++
 				body = append(body, st...)
 			}
 		}
+		// a helper function whose locals have constant / override-derived initialisers (exercises the clone of
+		// Functions[i].LocalVars[j].Init and rebuildFunctionExpressions on non-entry-point functions)
+		helperSrc := ""
+		if c.chance(0.6) {
+			var iov *ovDecl
+			for k := range ovs {
+				if ovs[k].ty.isInt() {
+					iov = &ovs[k]
+				}
+			}
+			if iov != nil {
+				t := iov.ty
+				ov := &wexpr{k: "var", ty: t, name: iov.name, konst: true}
+				if c.chance(0.5) {
+					// value-returning helper (known finding: the clone shares StmtReturn.Value with the caller's module)
+					hb := []*wstmt{
+						{k: "var", name: "ht", ty: t, e: &wexpr{k: "bin", ty: t, op: "+", args: []*wexpr{ov, lit32(t, uint32(1+c.rng.Intn(9)))}}},
+						{k: "var", name: "hu", ty: t, e: lit32(t, uint32(c.rng.Intn(50)))},
+						{k: "return", e: &wexpr{k: "bin", ty: t, op: "+", args: []*wexpr{{k: "var", ty: t, name: "hx"}, {k: "bin", ty: t, op: "+", args: []*wexpr{{k: "var", ty: t, name: "ht"}, {k: "var", ty: t, name: "hu"}}}}}},
+					}
+					hf := &wfunc{name: "hfun", params: []wfield{{name: "hx", ty: t}}, ptrs: []bool{false}, ret: t, body: hb}
+					ref.funcs = append(ref.funcs, hf)
+					helperSrc = hf.wgsl(false, 0)
+					call := &wexpr{k: "callfn", ty: t, name: "hfun", args: []*wexpr{lit32(t, uint32(c.rng.Intn(20)))}}
+					st := encStores(call, t)
+					st[0].lhs.args[1].bits = uint32(slot)
+					slot++
+					body = append(body, st...)
+				} else {
+					// flat void helper: initialised locals and a store, no pointer-carrying statements
+					sum := &wexpr{k: "bin", ty: t, op: "+", args: []*wexpr{{k: "var", ty: t, name: "ht"}, {k: "var", ty: t, name: "hu"}}}
+					st := encStores(sum, t)
+					st[0].lhs.args[1].bits = uint32(slot)
+					slot++
+					hb := []*wstmt{
+						{k: "var", name: "ht", ty: t, e: &wexpr{k: "bin", ty: t, op: "+", args: []*wexpr{ov, lit32(t, uint32(1+c.rng.Intn(9)))}}},
+						{k: "var", name: "hu", ty: t, e: lit32(t, uint32(c.rng.Intn(50)))},
+						st[0],
+					}
+					hf := &wfunc{name: "hflat", body: hb}
+					ref.funcs = append(ref.funcs, hf)
+					helperSrc = hf.wgsl(false, 0)
+					body = append(body, &wstmt{k: "callstmt", e: &wexpr{k: "callfn", ty: t, name: "hflat"}})
+				}
+				c.count("with-helper")
+			}
+		}
 		ref.entry = &wfunc{name: "main", body: body}
 		src := "@group(0) @binding(0) var<storage, read> inp: array<u32>;\n@group(0) @binding(1) var<storage, read_write> outp: array<u32>;\n" +
-			decls.String() + ref.entry.wgsl(true, 1)
+			decls.String() + helperSrc + ref.entry.wgsl(true, 1)
 		c.count("knob:" + knob)
 		emit := func(kase, impl string) {
 			c.line("cases.txt", kase)
@@ -295,7 +347,19 @@ func cmdC14(c *ctx) {
 		before := dumpModule(mod)
 		clone := ir.CloneModuleForOverrides(mod)
 		r := guard("ProcessOverrides", func() error { return ir.ProcessOverrides(clone, consts) })
-		callerChanged := dumpModule(mod) != before
+		after := dumpModule(mod)
+		callerChanged := after != before
+		if callerChanged && os.Getenv("VERIF_DEBUG") != "" {
+			k := 0
+			for k < len(after) && k < len(before) && after[k] == before[k] {
+				k++
+			}
+			lo := k - 200
+			if lo < 0 {
+				lo = 0
+			}
+			fmt.Fprintf(os.Stderr, "CALLER CHANGED at %d\nbefore: %s\nafter:  %s\n", k, before[lo:min(len(before), k+200)], after[lo:min(len(after), k+200)])
+		}
 		status := "ok"
 		if callerChanged {
 			status = "CALLER-MODULE-CHANGED"
